@@ -52,6 +52,12 @@ static void mul_dense(int N, VhRng& rng, int flavour) {
         call_mul(f, r, a, b);
         VH_B; vh_s("k", "md"); VH_C; vh_s("f", MULF[f]); VH_C; vh_i("N", N); VH_C; wl("a", (uint32_t*)a->coefs, N); VH_C; wl("b", (uint32_t*)b->coefsT, N); VH_C; wl("r0", r0.data(), N); VH_C; wl("out", (uint32_t*)r->coefsT, N); VH_E;
     }
+    // the Karatsuba entry points with the result being the torus operand itself (they compute the whole product before writing): same rows, r0 = b
+    for (int f = 1; f < 4; f++) {
+        std::vector<uint32_t> b0(N); for (int i = 0; i < N; i++) { b0[i] = (uint32_t)b->coefsT[i]; r->coefsT[i] = b->coefsT[i]; }
+        call_mul(f, r, a, r);
+        VH_B; vh_s("k", "md"); VH_C; vh_s("f", MULF[f]); VH_C; vh_i("N", N); VH_C; wl("a", (uint32_t*)a->coefs, N); VH_C; wl("b", b0.data(), N); VH_C; wl("r0", b0.data(), N); VH_C; wl("out", (uint32_t*)r->coefsT, N); VH_E;
+    }
     delete_IntPolynomial(a); delete_TorusPolynomial(b); delete_TorusPolynomial(r);
 }
 static const char* XF[] = {"txai", "txaim1", "ixaim1"};
